@@ -40,6 +40,45 @@ Theorem C06_snapshot_is_living_particles : forall s, State.Inv s ->
 Proof. exact compactify_pids. Qed.
 Print Assumptions C06_snapshot_is_living_particles.
 
+(** T1 for SPLIT output (numrec >= 1), composed with the output machine of C07: record k of the simulation is
+    record (k mod numrec) of file (k / numrec) — that file exists, carries that number and is closed — and is
+    retrieved there with THAT FILE'S OWN cumulative particle_count (the instance arrays of every file start at
+    zero): columns, time coordinate, counts of exactly the records of that file, counts summing to the instance
+    dimension of that file.  Snapshots need to be well-formed only at the due steps. *)
+From Ladim Require Import Proofs.SplitLayoutProofs.
+Theorem C06_split_record_retrievable : forall (P : Type) (snap : Z -> snapshot) (pvs : Z -> P) (nvars : nat)
+    (nsteps p numrec : Z) (k i : nat),
+  0 <= nsteps -> 1 <= p -> 1 <= numrec ->
+  (forall step : Z, In step (due nsteps p) -> wf_snap nvars (snap step)) ->
+  (k < length (due nsteps p))%nat -> (i < nvars)%nat ->
+  let s := out_run snapshot P snap pvs nsteps p numrec in
+  let n := Z.to_nat numrec in
+  let a := (k / n)%nat in
+  let j := (k mod n)%nat in
+  let file_a := nth a (files s) (new_file snapshot P 0) in
+  let fa := fst (sparse_run nvars (recs file_a)) in
+  (a < length (files s))%nat /\ fno file_a = Z.of_nat a /\ closed file_a = true /\
+  (j < length (recs file_a))%nat /\
+  nth i (retrieve fa j) [] = nth i (cols (snap (nth k (due nsteps p) 0))) [] /\
+  nth j (stimes fa) 0 = stime (snap (nth k (due nsteps p) 0)) /\
+  counts fa = map snap_count (firstn n (skipn (a * n) (map snap (due nsteps p)))) /\
+  Forall (fun arr : list Z => Z.of_nat (length arr) = zsum (counts fa)) (flat fa).
+Proof. exact split_record_retrievable. Qed.
+Print Assumptions C06_split_record_retrievable.
+(** ... and what is retrieved from the split files is what is retrieved from the unsplit file *)
+Theorem C06_split_retrieval_equals_unsplit : forall (P : Type) (snap : Z -> snapshot) (pvs : Z -> P) (nvars : nat)
+    (nsteps p numrec : Z) (k i : nat),
+  0 <= nsteps -> 1 <= p -> 1 <= numrec ->
+  (forall step : Z, In step (due nsteps p) -> wf_snap nvars (snap step)) ->
+  (k < length (due nsteps p))%nat -> (i < nvars)%nat ->
+  let s := out_run snapshot P snap pvs nsteps p numrec in
+  let n := Z.to_nat numrec in
+  let fa := fst (sparse_run nvars (recs (nth (k / n) (files s) (new_file snapshot P 0)))) in
+  let f1 := fst (sparse_run nvars (map snap (due nsteps p))) in
+  nth i (retrieve fa (k mod n)) [] = nth i (retrieve f1 k) [] /\
+  nth (k mod n) (stimes fa) 0 = nth k (stimes f1) 0.
+Proof. exact split_retrieval_equals_unsplit. Qed.
+Print Assumptions C06_split_retrieval_equals_unsplit.
 Example C06_ex :
   let rs := [ {| stime := 0; cols := [[0; 1]; [10; 11]] |}; {| stime := 600; cols := [[]; []] |};
               {| stime := 1200; cols := [[1; 2; 3]; [21; 22; 23]] |} ] in
